@@ -260,7 +260,7 @@ func Yield(site uint32) {
 	// (never while the task holds a simulated lock: a panic between Lock and
 	// Unlock is not something the code under test can meet, and it would leave
 	// the lock held for the rest of the run)
-	if len(t.curPan) > 0 && t.curPan[0].K <= t.opYields && lockDepth[t.id] == 0 {
+	if len(t.curPan) > 0 && t.curPan[0].K <= t.opYields && lockDepth[t.id] == 0 && readLocks[t.id] == 0 {
 		f := t.curPan[0]
 		t.curPan = t.curPan[1:]
 		rep.PanicsFired = append(rep.PanicsFired, f.Name)
